@@ -129,6 +129,35 @@ def outer_uniq(x):
     return f_uniq(x, k=2.0) + f_uniq(x * 0.5, k=2.0)
 
 
+def h_plain(x):
+    return jnp.tanh(x) * 0.5 - x
+
+
+@onnx_function
+def h_fn(x):
+    return jnp.tanh(x) * 0.5 - x
+
+
+@onnx_function(unique=True)
+def h_uniq(x):
+    return jnp.tanh(x) * 0.5 - x
+
+
+def outer2_plain(x):
+    return f_plain(x, k=2.0) + g_plain(x, x * 0.5) * h_plain(x)
+
+
+@onnx_function
+def outer2_fn(x):
+    # three *different* nested functions are defined while this body is built
+    return f_fn(x, k=2.0) + g_fn(x, x * 0.5) * h_fn(x)
+
+
+@onnx_function(unique=True)
+def outer2_uniq(x):
+    return f_uniq(x, k=2.0) + g_uniq(x, x * 0.5) * h_uniq(x)
+
+
 def site_strategy():
     from hypothesis import strategies as st
 
@@ -139,6 +168,7 @@ def site_strategy():
         st.tuples(st.just("fn"), st.sampled_from([1.0, 2.0, -1.0, -2.0])).map(list),
         st.tuples(st.just("g"), st.sampled_from([0.5, 2.0])).map(list),
         st.tuples(st.just("outer")).map(list),
+        st.tuples(st.just("outer2")).map(list),
     )
 
 
@@ -177,6 +207,8 @@ def build(history, variant, insts=None):
                 acc = {"plain": f_plain, "fn": f_fn, "uniq": f_uniq}[variant](acc, k=s[1])
             elif s[0] == "g":
                 acc = {"plain": g_plain, "fn": g_fn, "uniq": g_uniq}[variant](acc, acc * s[1])
+            elif s[0] == "outer2":
+                acc = {"plain": outer2_plain, "fn": outer2_fn, "uniq": outer2_uniq}[variant](acc)
             else:
                 acc = {"plain": outer_plain, "fn": outer_fn, "uniq": outer_uniq}[variant](acc)
         return acc
